@@ -34,3 +34,16 @@ Example C02_run_nonvacuous :
   let p' := run p [SwapIn 2 1 7 2 1; SwapOut 2 2 100000000000000000000 1 1000; SwapIn 2 1 0 2 1] in
   0 < p_S p /\ 0 < p_S p' /\ p_r1 p * p_r2 p < p_r1 p' * p_r2 p'.
 Proof. vm_compute. repeat split. Qed.
+
+(** The two-pair world (the pair and the trusted pair its fee slices are swapped through, without fee): over every
+    history BOTH pools keep a positive LP supply and K / S^2 non-decreasing — the fee hand-off neither drains the
+    sender below its own curve nor the receiving pair. *)
+Theorem C02_world_run_K : forall ops w, WorldInv w -> 0 < p_S (w_p w) -> 0 < p_S (w_q w) ->
+  (0 < p_S (w_p (wrun w ops)) /\
+   p_r1 (w_p w) * p_r2 (w_p w) * (p_S (w_p (wrun w ops)) * p_S (w_p (wrun w ops)))
+     <= p_r1 (w_p (wrun w ops)) * p_r2 (w_p (wrun w ops)) * (p_S (w_p w) * p_S (w_p w))) /\
+  (0 < p_S (w_q (wrun w ops)) /\
+   p_r1 (w_q w) * p_r2 (w_q w) * (p_S (w_q (wrun w ops)) * p_S (w_q (wrun w ops)))
+     <= p_r1 (w_q (wrun w ops)) * p_r2 (w_q (wrun w ops)) * (p_S (w_q w) * p_S (w_q w))).
+Proof. exact wrun_K. Qed.
+Print Assumptions C02_world_run_K.
